@@ -43,6 +43,7 @@ type IPFIX struct {
 	stop    bool
 	stats   IPFIXStats
 	pool    chan chan struct{}
+	done    chan struct{} // closed when the receive loop has ended
 }
 
 // IPFIXUDPMsg represents IPFIX UDP data
@@ -85,6 +86,7 @@ func NewIPFIX() *IPFIX {
 		port:    opts.IPFIXPort,
 		addr:    opts.IPFIXAddr,
 		workers: opts.IPFIXWorkers,
+		done:    make(chan struct{}),
 	}
 }
 
@@ -166,6 +168,7 @@ func (i *IPFIX) run() {
 		ipfixUDPCh <- IPFIXUDPMsg{raddr, b[:n]}
 	}
 
+	close(i.done)
 }
 
 func (i *IPFIX) shutdown() {
@@ -177,7 +180,9 @@ func (i *IPFIX) shutdown() {
 	// stop reading from UDP listener
 	i.stop = true
 	logger.Println("stopping ipfix service gracefully ...")
-	time.Sleep(1 * time.Second)
+	// the receive loop sees the flag within its one second read deadline, but it may
+	// also be waiting for room in a full queue: the queue is closed only after it has ended
+	<-i.done
 
 	// dump the templates to storage
 	if err := mCache.Dump(opts.IPFIXTplCacheFile); err != nil {
